@@ -4,6 +4,7 @@ mod driver;
 mod enc;
 mod c09;
 mod c10;
+mod c13;
 mod c04;
 mod c06;
 mod linemodel;
@@ -15,7 +16,7 @@ use crate::core::{Prop, Tier};
 use std::path::Path;
 
 pub fn props() -> Vec<&'static dyn Prop> {
-    vec![&c04::C04, &c06::C06, &c07::C07, &c09::C09, &c10::C10]
+    vec![&c04::C04, &c06::C06, &c07::C07, &c09::C09, &c10::C10, &c13::C13]
 }
 
 pub fn find(id: &str) -> Option<&'static dyn Prop> {
